@@ -91,28 +91,35 @@ def spring_cases(ctx, n_models, n_steps):
 
 
 def energy(sysm, st):
-  import jax.numpy as jp
-  from brax import math
-  ke = 0.5 * st.qd @ st.mass_mx @ st.qd
-  com = st.x.pos + np.stack([np.asarray(math.rotate(p, r)) for p, r in
-                             zip(np.asarray(sysm.link.inertia.transform.pos), np.asarray(st.x.rot))])
-  pe = -float(np.sum(np.asarray(sysm.link.inertia.mass)[:, None] * com * np.asarray(sysm.gravity)[None, :]))
-  qi = np.asarray(sysm.q_idx('123')) if any(t in '123' for t in sysm.link_types) else np.zeros(0, dtype=int)
-  di = np.asarray(sysm.qd_idx('123')) if len(qi) else np.zeros(0, dtype=int)
-  if len(qi):
-    pe += 0.5 * float(np.sum(np.asarray(sysm.dof.stiffness)[di] * np.asarray(st.q)[qi] ** 2))
-  return float(ke) + pe
+  """total mechanical energy of the state (q, qd), computed by the REFERENCE engine from the same
+  model (mj_energyPos + mj_energyVel: gravity + joint springs + kinetic) — independent of the
+  pipeline's own mass matrix, so that a wrong but self-consistent M cannot hide"""
+  import mujoco
+  m = sysm.mj_model
+  d = mujoco.MjData(m)
+  d.qpos[:] = np.asarray(st.q)
+  d.qvel[:] = np.asarray(st.qd)
+  old = m.opt.enableflags
+  m.opt.enableflags |= mujoco.mjtEnableBit.mjENBL_ENERGY
+  try:
+    mujoco.mj_forward(m, d)
+    e = float(d.energy[0] + d.energy[1])
+  finally:
+    m.opt.enableflags = old
+  return e
 
 
-def drift_case(rng, horizon_steps=64, dt0=1e-3):
+def drift_case(rng, horizon_steps=64, dt0=1e-3, gen=None):
   """returns dict with drifts at dt, dt/2, dt/4 for one conservative generator model"""
   _setup()
   import jax
   import jax.numpy as jp
   from brax.generalized import pipeline
   from brax.io import mjcf
-  xml, meta = modelgen.gen_model(rng, n_links=(1, 4), limits=0.0, damping=0.0, actuators=(0, 0), stiffness=0.4,
-                                 custom={'matrix_inv_iterations': 0}, timestep=dt0)
+  o = dict(n_links=(1, 4), limits=0.0, damping=0.0, actuators=(0, 0), stiffness=0.4,
+           custom={'matrix_inv_iterations': 0}, timestep=dt0)
+  o.update(gen or {})
+  xml, meta = modelgen.gen_model(rng, **o)
   sys0 = mjcf.loads(xml)
   q, qd = modelgen.rand_state(rng, sys0, q_range=1.0, qd_range=1.0)
   drifts = []
@@ -125,13 +132,16 @@ def drift_case(rng, horizon_steps=64, dt0=1e-3):
     e0 = energy(sysm, st)
     for _ in range(horizon_steps * 2 ** lvl):
       st = step(st)
-    if not np.all(np.isfinite(np.asarray(st.qd))):
-      return None
+    if not np.all(np.isfinite(np.asarray(st.qd))) or not np.all(np.isfinite(np.asarray(st.q))):
+      return dict(xml=xml, q=q.tolist(), qd=qd.tolist(), drifts=[float('nan')] * 3, e0=e0, types=meta['link_types'],
+                  nonfinite=True)
     drifts.append(energy(sysm, st) - e0)
   return dict(xml=xml, q=q.tolist(), qd=qd.tolist(), drifts=drifts, e0=e0, types=meta['link_types'])
 
 
 def drift_ok(c):
+  if c.get('nonfinite'):
+    return False      # a conservative model with |qd| <= 1 must stay finite over 64 ms
   d1, d2, d4 = c['drifts']
   scale = 1e-9 * (1 + abs(c['e0']))
   # first order: the Richardson extrapolate 2 D(dt/2) - D(dt) is second-order small
@@ -141,10 +151,13 @@ def drift_ok(c):
 def drift_cases(ctx, n, seed_offset=0):
   rng = np.random.default_rng(ctx.seed + 500 + seed_offset)
   cases, fails = [], []
-  for _ in range(n):
-    c = drift_case(rng)
-    if c is None:
-      continue
+  # history dependence: the same joint layout (link_types) with a different topology, one after the other in
+  # this process (chain then star, world-attached and free-rooted) — a stale per-layout cache would show here
+  twins = [dict(n_links=(3, 3), stack=(1, 1), roots='world', topology=t) for t in ('chain', 'star')]
+  twins += [dict(n_links=(3, 3), stack=(1, 1), roots='free', topology=t) for t in ('chain', 'star')]
+  gens = twins + [None] * max(0, n - len(twins))
+  for g in gens:
+    c = drift_case(rng, gen=g)
     cases.append(c)
     if not drift_ok(c):
       fails.append(dict(key=f'drift:{c["types"]}', what='energy drift of the generalized pipeline does not shrink like dt',
@@ -154,7 +167,7 @@ def drift_cases(ctx, n, seed_offset=0):
 
 def correspond(ctx):
   n, dis, meta = spring_cases(ctx, ctx.budget(12, 120), ctx.budget(60, 300))
-  cases, fails = drift_cases(ctx, ctx.budget(4, 40))
+  cases, fails = drift_cases(ctx, ctx.budget(6, 40))
   return dict(
       evaluations=n + len(cases), distinct_nontrivial=n + len({c['types'] for c in cases}),
       rule='(a) one-dof spring models (random unit axis, body orientation, mass, armature, stiffness, damping or not, '
